@@ -7,6 +7,8 @@
 //   facts maplit <file.go> <varname>     prints "<key src>\t<value src>" per entry of the composite (map) literal that
 //                                        initialises the package-level variable; fails if the variable is missing
 //   facts varsrc <file.go> <var>         prints the source text of a package-level var initialiser
+//   facts casebodies <file.go> <func>    per case clause: labels TAB first statement
+//   facts typedconsts <pkgdir> <Type>    every constant of the named type with its value
 package main
 
 import (
@@ -266,6 +268,67 @@ func main() {
 			return
 		}
 		fail("func %s not found", os.Args[3])
+	case "casebodies":
+		// (added for C10) per case clause of every switch in the named function: labels joined by "," TAB first statement
+		fset := token.NewFileSet()
+		f, err := parser.ParseFile(fset, os.Args[2], nil, parser.SkipObjectResolution)
+		if err != nil {
+			fail("parse: %v", err)
+		}
+		found := false
+		for _, d := range f.Decls {
+			fd, ok := d.(*ast.FuncDecl)
+			if !ok || fd.Name.Name != os.Args[3] || fd.Body == nil {
+				continue
+			}
+			found = true
+			ast.Inspect(fd.Body, func(nd ast.Node) bool {
+				cc, ok := nd.(*ast.CaseClause)
+				if !ok {
+					return true
+				}
+				var l []string
+				for _, e := range cc.List {
+					l = append(l, src(fset, e))
+				}
+				if len(l) == 0 {
+					l = []string{"default"}
+				}
+				body := ""
+				if len(cc.Body) > 0 {
+					body = src(fset, cc.Body[0])
+				}
+				fmt.Printf("%s\t%s\n", strings.Join(l, ","), body)
+				return true
+			})
+		}
+		if !found {
+			fail("func %s not found in %s", os.Args[3], os.Args[2])
+		}
+	case "typedconsts":
+		// (added for C10) every package-level constant of the named type: "<name> <value>", in source order of value
+		fset, files := loadPkg(os.Args[2])
+		conf := types.Config{Importer: &fakeImporter{pkgs: map[string]*types.Package{}}, Error: func(error) {}, FakeImportC: true}
+		pkg, _ := conf.Check("p", fset, files, nil)
+		if pkg == nil {
+			fail("type check produced nothing")
+		}
+		n := 0
+		for _, name := range pkg.Scope().Names() {
+			c, ok := pkg.Scope().Lookup(name).(*types.Const)
+			if !ok {
+				continue
+			}
+			nt, ok := c.Type().(*types.Named)
+			if !ok || nt.Obj().Name() != os.Args[3] || c.Val().Kind() == constant.Unknown {
+				continue
+			}
+			fmt.Printf("%s %s\n", name, c.Val().ExactString())
+			n++
+		}
+		if n == 0 {
+			fail("no constant of type %s in %s", os.Args[3], os.Args[2])
+		}
 	case "varsrc":
 		// (added for C10) prints the normalised source text of the initialiser of a package-level var, e.g. a map literal
 		fset := token.NewFileSet()
